@@ -213,6 +213,12 @@ def _graph_level(case):
     comp_of = {n: k for k, c in enumerate(nx.connected_components(host)) for n in c}
     hit = [comp_of.get(next(iter(pc))) for pc in nx.connected_components(pat)]
     o["nonsep"] = bool(strategy in ("comp", "bt") and pcc > 0 and hcc == pcc and len(set(hit)) < len(hit))
+    # [hcc, pcc, the identity separates the pattern components]: two pattern atoms in one substrate component are in one pattern component
+    pcomp_of = {n: k for k, c in enumerate(nx.connected_components(pat)) for n in c}
+    inside = {}
+    for n in pat.nodes:
+        inside.setdefault(comp_of.get(n), set()).add(pcomp_of[n])
+    o["sep"] = [hcc, pcc, 1 if all(len(v) <= 1 for v in inside.values()) else 0]
     o["raw"], o["mappings"] = raw, mappings
     o.update(rule=rule, left=left, flag=flag, pat=pat, idm=idm, nraw=len(raw), nmaps=len(mappings),
              id_in_raw=idm in raw, id_kept=idm in mappings, its_list=its_list, its_err=its_err)
@@ -353,7 +359,7 @@ def _impl_m(case):
     nonneg = 1 if all(int(d.get("hcount", 0)) >= 0 for _, d in o["pat"].nodes(data=True)) else 0
     rawset = [S([K.map_obs(m) for m in o["raw"]])] if pre.get("chk_raw") else []
     kept = [[K.map_obs(m) for m in o["mappings"]]] if pre.get("raw") is not None else []
-    return [base, [nonneg, rawset, kept]]
+    return [base, [nonneg, o["sep"], rawset, kept]]
 
 
 # ------------------------------------------------------------------ OBJECT cases (harness/gen/c04_obj.py)
@@ -749,7 +755,7 @@ def _unwrap(case, obs):
         return ["SKIP"]
     if case.get("hist") and isinstance(obs, list) and len(obs) == 2 and isinstance(obs[0], list):
         obs = obs[0]
-    if isinstance(obs, list) and len(obs) == 2 and isinstance(obs[0], list) and isinstance(obs[1], list) and len(obs[1]) == 3:
+    if isinstance(obs, list) and len(obs) == 2 and isinstance(obs[0], list) and isinstance(obs[1], list) and len(obs[1]) == 4:
         obs = obs[0]          # drop the matching stage
     if isinstance(obs, list) and len(obs) == 2 and isinstance(obs[0], list) and obs[1] in (0, 1):
         obs = obs[0]
@@ -788,13 +794,17 @@ def distribution(cases, obss):
             if o[0] and o[0][0] == "SKIP":
                 continue
             o = o[0]
-        if isinstance(o, list) and len(o) == 2 and isinstance(o[1], list) and len(o[1]) == 3 and isinstance(o[0], list):
-            mt = d.setdefault("matching_stage", dict(raw_enumerated_by_model=0, pruning_by_model=0, pruned_away=0))
-            mt["raw_enumerated_by_model"] += 1 if o[1][1] else 0
-            mt["pruning_by_model"] += 1 if o[1][2] else 0
+        if isinstance(o, list) and len(o) == 2 and isinstance(o[1], list) and len(o[1]) == 4 and isinstance(o[0], list):
+            mt = d.setdefault("matching_stage", dict(raw_enumerated_by_model=0, pruning_by_model=0, pruned_away=0, identity_separating=0,
+                                                      fewer_substrate_components=0, more_substrate_components=0))
+            mt["raw_enumerated_by_model"] += 1 if o[1][2] else 0
+            mt["pruning_by_model"] += 1 if o[1][3] else 0
+            mt["identity_separating"] += o[1][1][2]
+            mt["fewer_substrate_components"] += 1 if o[1][1][0] < o[1][1][1] else 0
+            mt["more_substrate_components"] += 1 if o[1][1][0] > o[1][1][1] else 0
             pre0 = c.get("pre") or {}
-            if o[1][2] and pre0.get("raw") is not None:
-                mt["pruned_away"] += max(0, len(pre0["raw"]) - len(o[1][2][0]))
+            if o[1][3] and pre0.get("raw") is not None:
+                mt["pruned_away"] += max(0, len(pre0["raw"]) - len(o[1][3][0]))
             o = o[0]
         if isinstance(o, list) and len(o) == 2 and isinstance(o[0], list) and o[1] in (0, 1):
             d["kept_regenerates"] = d.get("kept_regenerates", 0) + o[1]
